@@ -1092,12 +1092,13 @@ def pick_presentation(fmt, rng, p_plain=0.5):
 
 class Pair:
     """one correspondence case"""
-    __slots__ = ('img', 'sizes', 'ctag', 'trace', 'poke', 'kind', 'feed', 'ctor', 'allowed', 'expected')
+    __slots__ = ('img', 'sizes', 'ctag', 'trace', 'poke', 'kind', 'feed', 'ctor', 'allowed', 'expected', 'companion')
 
     def __init__(self, img, sizes, ctag, trace=False, poke=False, kind='insp', feed='bytes', ctor=None,
                  allowed=None, expected=None):
         self.img, self.sizes, self.ctag, self.trace, self.poke, self.kind = img, sizes, ctag, trace, poke, kind
         self.feed, self.ctor, self.allowed, self.expected = feed, ctor or {}, allowed, expected
+        self.companion = None
 
     def case(self):
         c = {'kind': self.kind, 'fmt': self.img.fmt, 'content': self.img.field, 'sizes': pack_sizes(self.sizes),
@@ -1108,6 +1109,9 @@ class Pair:
             c['ctor'] = self.ctor
         if self.poke:
             c['poke'] = 1
+        if self.companion:
+            c['companion'] = {'content': content_field(self.companion[0]), 'sizes': pack_sizes(self.companion[1]),
+                              'mode': self.companion[2]}
         if self.kind == 'wrap' and (self.allowed or self.expected):
             c.update(allowed=self.allowed, expected=self.expected)
         if self.img.wellformed:            # lets the C07 search apply the declared-size oracle to a disagreeing case
@@ -1140,10 +1144,89 @@ def poker(rng, p=0.3):
     return q
 
 
-def run_insp_x(fmt, data, sizes, trace=False, query=None, feed='bytes', ctor=None):
+COMPANION_MODES = ('after', 'interleaved', 'before')
+
+
+class Companion:
+    """a second object of the same class, alive at the same time and fed a different stream: completely before
+    the first one starts ('before'), chunk by chunk in alternation ('interleaved'), or after the first one has
+    finished and before it is looked at again ('after').  Objects are independent: nothing the second one is
+    shown may change what the first one reports."""
+
+    def __init__(self, make, data, sizes, mode):
+        if mode not in COMPANION_MODES:
+            raise ValueError(mode)
+        self.obj, self.mode, self.dead = make(), mode, False
+        self.chunks = iter(insp_impl.cut(data, sizes))
+
+    def _eat(self, chunk):
+        if self.dead:
+            return
+        try:
+            self.feed(chunk)
+        except Exception:
+            self.dead = True
+
+    def feed(self, chunk):
+        self.obj.eat_chunk(chunk)
+
+    def finish(self):
+        self.obj.finish()
+
+    def _rest(self):
+        for c in self.chunks:
+            self._eat(c)
+        try:
+            self.finish()
+        except Exception:
+            pass
+
+    def start(self):
+        if self.mode == 'before':
+            self._rest()
+
+    def step(self):
+        if self.mode == 'interleaved':
+            for c in self.chunks:
+                self._eat(c)
+                break
+
+    def end(self):
+        if self.mode != 'before':
+            self._rest()
+
+
+class WrapCompanion(Companion):
+    """the same with a second InspectWrapper (its own source)"""
+
+    def __init__(self, data, sizes, mode, allowed=None):
+        F = insp_impl.fi()
+        self.sizes = iter(sizes)
+        Companion.__init__(self, lambda: F.InspectWrapper(insp_impl.Src(data), allowed_formats=allowed or None), data, sizes, mode)
+        self.chunks = iter(sizes)
+
+    def feed(self, n):
+        self.obj.read(n)
+
+    def finish(self):
+        self.obj.close()
+
+
+def _companion(fmt, companion, ctor=None):
+    if not companion:
+        return None
+    F = insp_impl.fi()
+    data, sizes, mode = companion
+    return Companion(lambda: F.ALL_FORMATS[fmt](**(ctor or {})), data, sizes, mode)
+
+
+def run_insp_x(fmt, data, sizes, trace=False, query=None, feed='bytes', ctor=None, companion=None, after_error='stop'):
     """insp_impl.run_insp with the chunk object kind and the constructor arguments as parameters
     (same rendering: trace, final state, verdict)"""
     F = insp_impl.fi()
+    comp = _companion(fmt, companion, ctor)
+    if comp:
+        comp.start()
     i = F.ALL_FORMATS[fmt](**(ctor or {}))
     fd = Feeder(feed)
     raised, tr, pos = None, [], 0
@@ -1154,26 +1237,77 @@ def run_insp_x(fmt, data, sizes, trace=False, query=None, feed='bytes', ctor=Non
             i.eat_chunk(fd.give(chunk))
         except Exception as e:
             fd.after()
-            raised = insp_impl.errname(e)
+            raised = raised or insp_impl.errname(e)
             if trace:
-                tr.append(insp_impl.show_state(i) + ' err=' + raised)
+                tr.append(insp_impl.show_state(i) + ' err=' + insp_impl.errname(e))
+            if after_error == 'continue':
+                continue
             break
         fd.after()
+        if comp:
+            comp.step()
         if query:
             query(i)
         if trace:
             tr.append(insp_impl.show_state(i))
     i.finish()
+    if comp:
+        insp_impl.show_verdict(i, raised)        # a first look, before the other object goes on
+        comp.end()
     tail = insp_impl.show_state(i) + '\t' + insp_impl.show_verdict(i, raised)
     return ('|'.join(tr) + '\t' + tail) if trace else tail
 
 
+def run_wrap_x(allowed, expected, data, sizes, companion=None):
+    """insp_impl.run_wrap, optionally with a second InspectWrapper alive at the same time (see Companion);
+    the first wrapper is rendered after the second one is done"""
+    if not companion:
+        return insp_impl.run_wrap(allowed, expected, data, sizes)[0]
+    F = insp_impl.fi()
+    comp = WrapCompanion(companion[0], companion[1], companion[2])
+    comp.start()
+    w = F.InspectWrapper(insp_impl.Src(data), expected_format=expected, allowed_formats=allowed or None)
+    decisions, end = [], 'done'
+    for n in sizes:
+        try:
+            w.read(n)
+        except F.ImageFormatError as e:
+            end = 'mismatch' if 'does not match expected format' in str(e) else 'raised:ImageFormatError'
+            break
+        except Exception as e:
+            end = 'raised:' + insp_impl.errname(e)
+            break
+        decisions.append(insp_impl.show_fmt(w))
+        comp.step()
+    w.close()
+    insp_impl.show_fmt(w)
+    comp.end()
+    order = list(F.ALL_FORMATS)
+    insps = sorted(whitebox.w_inspectors(w), key=lambda i: order.index(i.NAME))
+    errd = whitebox.w_errored(w)
+    per = ';'.join('%s%s %s' % (i.NAME, '!' if i in errd else '', insp_impl.show_verdict(i, None)) for i in insps)
+    return '|'.join(decisions) + '\t' + end + '\t' + insp_impl.show_fmt(w) + '\t' + per
+
+
+def add_companions(pairs, rng, p=0.15):
+    """give a fraction of the cases a second live object of the same class (inspector or InspectWrapper) that is
+    fed the stream of another case - the model is stateless per object, so each is still compared with its own run"""
+    by_fmt = {}
+    for q in pairs:
+        by_fmt.setdefault((q.kind, q.img.fmt if q.kind == 'insp' else ''), []).append(q)
+    for q in pairs:
+        if rng.random() < p and len(q.sizes) <= 1500:
+            o = rng.choice(by_fmt[(q.kind, q.img.fmt if q.kind == 'insp' else '')])
+            if o is not q and len(o.sizes) <= 1500 and len(o.img.data) <= 1 << 20:
+                q.companion = (o.img.data, o.sizes, rng.choice(COMPANION_MODES))
+
+
 def run_impl(pair, rng=None):
     if pair.kind == 'wrap':
-        return insp_impl.run_wrap(pair.allowed, pair.expected, pair.img.data, pair.sizes)[0]
+        return run_wrap_x(pair.allowed, pair.expected, pair.img.data, pair.sizes, pair.companion)
     q = poker(rng) if (pair.poke and rng is not None) else None
     try:
-        return run_insp_x(pair.img.fmt, pair.img.data, pair.sizes, pair.trace, q, pair.feed, pair.ctor)
+        return run_insp_x(pair.img.fmt, pair.img.data, pair.sizes, pair.trace, q, pair.feed, pair.ctor, pair.companion)
     except Exception as e:                # e.g. a property that raises outside eat_chunk
         return 'CRASH:%s:%s' % (type(e).__name__, e)
 
@@ -1226,20 +1360,28 @@ def model_replies(ctx, fmt, field, sizes_list, kind='insp', allowed=None, expect
     return ask_parallel(ctx.driver, lines)
 
 
-def impl_final(fmt, data, sizes, kind='insp', feed='bytes', ctor=None, allowed=None, expected=None):
+def companion_of_case(c):
+    k = c.get('companion')
+    return (decode_content(k['content']), unpack_sizes(k['sizes']), k['mode']) if k else None
+
+
+def impl_final(fmt, data, sizes, kind='insp', feed='bytes', ctor=None, allowed=None, expected=None, companion=None):
     if kind == 'wrap':
-        return insp_impl.run_wrap(allowed, expected, data, sizes)[0]
-    return run_insp_x(fmt, data, sizes, feed=feed, ctor=ctor)
+        return run_wrap_x(allowed, expected, data, sizes, companion)
+    return run_insp_x(fmt, data, sizes, feed=feed, ctor=ctor, companion=companion)
 
 
 # --------------------------------------------------------------------------
 # implementation-only helpers for the searches
 
-def impl_run(fmt, data, sizes, query=None, every_chunk=None, feed='bytes', ctor=None):
+def impl_run(fmt, data, sizes, query=None, every_chunk=None, feed='bytes', ctor=None, companion=None, after_error='stop'):
     """feed the real inspector (wrapper discipline), finish; returns (verdict core, full string, inspector).
     `every_chunk(inspector, position)` is called after every eat_chunk that returned.  `feed` is the kind of
     object the chunks are presented as (see Feeder), `ctor` the constructor keyword arguments."""
     F = insp_impl.fi()
+    comp = _companion(fmt, companion, ctor)
+    if comp:
+        comp.start()
     i = F.ALL_FORMATS[fmt](**(ctor or {}))
     fd = Feeder(feed)
     raised, pos = None, 0
@@ -1250,16 +1392,26 @@ def impl_run(fmt, data, sizes, query=None, every_chunk=None, feed='bytes', ctor=
             i.eat_chunk(fd.give(chunk))
         except Exception as e:
             fd.after()
-            raised = insp_impl.errname(e)
+            raised = raised or insp_impl.errname(e)
             if every_chunk:
                 every_chunk(i, pos)
+            if after_error == 'continue':      # a caller that catches the error and keeps feeding the same object
+                continue
             break
         fd.after()
+        if comp:
+            comp.step()
         if query:
             query(i)
         if every_chunk:
             every_chunk(i, pos)
     i.finish()
+    if comp:
+        try:
+            insp_impl.show_verdict(i, raised)    # a first look, before the other object goes on
+        except Exception:
+            pass
+        comp.end()
     try:
         v = insp_impl.show_verdict(i, raised)
     except Exception as e:
